@@ -274,11 +274,17 @@ def shards(tier, seed):
             for kind, top in (("ico", 3), ("cube3D", 3), ("cube4D", 2)):
                 extra.append({"kind": kind, "top": top, "rseed": seed * 100 + 50 + len(extra), "calls": 25})
         out += extra
+        out.append({"kind": "repo_tests", "modules": ["tests/test_polytopes.py"], "rseed": 0, "calls": 0, "top": 0})
     return out
 
 
 def run_shard(spec):
     pt = install()
+    if spec["kind"] == "repo_tests":
+        from vlib import repo_tests
+        from vlib.props import c07
+        c07.install()
+        return repo_tests.run(spec["modules"])
     run_chain(pt, spec["kind"], spec["top"], random.Random(spec["rseed"]), spec["calls"], spec.get("query_levels"))
 
 
